@@ -12,7 +12,31 @@ def small_doc(rng, tag=None):
     return d
 
 
+def fallback_case(rng):
+    """a patch whose $match hits none of its parent documents: the search falls back to every document of the
+    parser, including documents that stand BEFORE the parents in the stream (multi-root inputs, several command-line
+    files)"""
+    kinds = ["A", "B", "C", "D"]
+    n = rng.randint(2, 5)
+    docs = [dict(small_doc(rng, kinds[i % 4]), kind=kinds[i % 4]) for i in range(n)]
+    steps = [{"merge": {"id": f"F0|doc{i}", "parents": [], "data": d}} for i, d in enumerate(docs)]
+    # parents: a non-prefix subset (the last document, or a middle one)
+    par = rng.choice([[n - 1], [n - 1, n - 2] if n > 2 else [n - 1], [rng.randrange(1, n)]])
+    outside = [i for i in range(n) if i not in par]
+    tgt = rng.choice(outside)
+    patch = {"$match": {"kind": docs[tgt]["kind"]}, "patched": rng.choice([1, "x"])}
+    if rng.random() < 0.3:
+        patch["$match"] = {"kind": "nosuch"}
+    steps.append({"merge": {"id": "F1|doc0", "parents": [f"F0|doc{i}" for i in par], "data": patch}})
+    if rng.random() < 0.5:
+        steps.append({"merge": {"id": "F1|doc1", "parents": [f"F0|doc{i}" for i in par], "data": {"plain": 1}}})
+    steps += [{"docs": True}, {"outdocs": True}]
+    return {"steps": steps, "env": {}}
+
+
 def gen_case(rng):
+    if rng.random() < 0.06:
+        return fallback_case(rng)
     nbase = rng.randint(1, 4)
     kinds = ["A", "B", "C"]
     steps = []
